@@ -274,7 +274,12 @@ def update_connectivity(
         fill_value=fill_value,
         dims=connectivity.dims,
         name=connectivity.name,
-        attrs=connectivity.attrs,
+        # The fill value goes in the encoding. A dataset opened without masking
+        # also has it as an attribute, and having both can not be saved
+        attrs={
+            key: value for key, value in connectivity.attrs.items()
+            if key != '_FillValue'
+        },
     )
 
 
